@@ -9,6 +9,7 @@ import (
 	"bytes"
 	"fmt"
 	"math/rand"
+	"os"
 	"sync"
 	"sync/atomic"
 	"time"
@@ -157,6 +158,17 @@ func main() {
 		// (b) Solidity parseVM from source
 		if solBody != "" {
 			vm, revert, err := csrc.SolParseVM(solBody, wire)
+			if os.Getenv("C04_FORCE_GENERAL") != "" { // self-test of the general interpreter on whatever source is there
+				err = fmt.Errorf("forced")
+			}
+			if err != nil { // a rewritten parseVM: try the general typed interpreter before giving up
+				if vm2, rv2, err2 := csrc.SolParseVM2(solBody, wire); err2 == nil {
+					vm, revert, err = vm2, rv2, nil
+					r.Count("solidity_parses_by_the_general_interpreter", 1)
+				} else {
+					err = fmt.Errorf("%v; general interpreter: %v", err, err2)
+				}
+			}
 			switch {
 			case err != nil:
 				r.Inconclusive("parseVM interpreter: " + err.Error())
